@@ -21,16 +21,19 @@ ID = 'C14'
 LEVEL = 'model_checking'
 ENGINE = 'E2 small-scope enumeration against reference reshape semantics'
 RULE = ('melt/recast: all rectangular tables, w in {2,3} x every permutation of the field names x every '
-        'ordered non-empty proper key subset x n <= 3 rows x every injective key assignment over K4 (compound '
-        'keys: pairs over K4, quick: 3-row compound keys over K3) with position-tagged (or None-checkered) value '
+        'ordered non-empty proper key subset x n <= 3 rows x every injective key assignment (single-field keys '
+        'over K8 = K4 + tuple- and list-VALUED cells (i1,), (i1,i2), (None,s1), [i2,i1]; compound keys: pairs '
+        'over K4, quick: 3-row compound keys over K3) with position-tagged (or None-checkered) value '
         'cells; call forms key by name / index / inferred from variables= / explicit variables subset / custom '
-        'variable+value field names / recast key inferred. recast: every molten table <= 3 (4) rows over key K4 '
+        'variable+value field names / recast key inferred. recast: every molten table <= 3 (4) rows over key K8 '
         'x variable {p,q} with missing=None/marker and with/without reducers. transpose: every shape w<=3(4), '
         'n<=3(4), first column over K4. flatten/unflatten: every shape, every ragged shape vector, every list '
         'length 0..6(8) x period 1..4(5) x missing. pivot: every table <= 4 rows over f1 x f2 alphabets, values '
         '2^i, aggfun sum/list/len/max, two field layouts. unpack/unpackdict/capture/split/splitdown: every '
-        'combination of cell contents (<= 2 rows), field position, name/index, newfields, include_original, '
-        'missing/fill/maxsplit. fromdicts(dicts(t)), fromcolumns(columns(t)): every shape w<=3, n<=3. '
+        'combination of cell contents (<= 2 rows), field position (first/middle/last), name/index, newfields, '
+        'include_original, missing/fill/maxsplit, the OTHER two cells of each row being position tags or (tables '
+        'of <= 1 (thorough 2) rows: every combination of) a value equal to the expanded cell / equal to its first '
+        'part. fromdicts(dicts(t)), fromcolumns(columns(t)): every shape w<=3, n<=3. '
         'states = distinct (table, call form) points. Non-trivial: round trips whose table is not already in '
         'the output arrangement (rows out of key order or variable fields out of name order); transposes with '
         'w>=2 and n>=1; unflatten with padding or >= 2 rows; pivots with an empty cell or a cell aggregating >= 2 '
@@ -45,23 +48,30 @@ ASSUMPTIONS = ['key alphabet K4 (None, two ints, one string; seed picks the conc
                'tables have <= 3 rows (<= 4 for pivot and in thorough)']
 
 MARK = '∅'
+NOTHING = ('nothing',)
 NAMES = ('a', 'b', 'c', 'd')
 _K4 = None
 _K3 = None
+_K8 = None       # single-field key alphabet: K4 + tuple- and list-valued cells
 _TIER = 'quick'
 _SEED = 0
 
 
 def setup(tier, seed):
-    global _K4, _K3, _TIER, _SEED
+    global _K4, _K3, _K8, _TIER, _SEED
     _K4 = spaces.K4(seed)
     _K3 = spaces.K3(seed)
+    r = spaces.reps(seed)
+    # compound VALUES in a single key cell (pairwise non-equivalent under the C04 order)
+    _K8 = _K4 + [(r['i1'],), (r['i1'], r['i2']), (None, r['s1']), [r['i2'], r['i1']]]
     _TIER = tier
     _SEED = seed
 
 
 def bounds(tier, seed):
-    return {'K4': [repr(v) for v in _K4], 'max_rows': 3, 'max_rows_pivot': 4 if tier == 'quick' else 5,
+    return {'K4': [repr(v) for v in _K4], 'single_key_alphabet_K8': [repr(v) for v in _K8],
+            'expander_other_cells': ['position tag', 'equal to the expanded cell', 'equal to its first part'],
+            'max_rows': 3, 'max_rows_pivot': 4 if tier == 'quick' else 5,
             'widths_melt': [2, 3], 'flat_list_lengths': '0..6' if tier == 'quick' else '0..8',
             'periods': '1..4' if tier == 'quick' else '1..5'}
 
@@ -550,7 +560,7 @@ def items(tier, seed):
     for n in range(nmol + 1):
         for layout in (0, 1):
             if n == nmol:
-                for first in range(4):
+                for first in range(8):
                     out.append(('recast', n, layout, first))
             else:
                 out.append(('recast', n, layout, None))
@@ -578,9 +588,9 @@ def items(tier, seed):
 
 
 def key_assignments(m, n, tier):
-    """Every injective assignment of n keys; a key is an m-tuple of cells over K4 (quick: 3-row compound
-    keys over K3)."""
-    alpha = _K4
+    """Every injective assignment of n keys; a key is an m-tuple of cells: single-field keys over K8
+    (K4 + tuple/list-valued cells), compound keys over K4 (quick: 3-row compound keys over K3)."""
+    alpha = _K4 if m >= 2 else _K8
     if m >= 2 and n >= 3 and tier != 'thorough':
         alpha = _K3
     keys = list(itertools.product(alpha, repeat=m))
@@ -620,14 +630,14 @@ def run_item(item, acc):
                 t = mk_melt_table(perm, K, keys, 'tagged')
                 _do(acc, {'form': 'melt', 'table': t, 'key': list(K)}, 'melt/recast')
         elif tier == 'thorough':
-            for keys in itertools.permutations([(k,) for k in _K4], 4):
+            for keys in itertools.permutations([(k,) for k in _K8], 4):
                 t = mk_melt_table(perm, K, keys, 'tagged')
                 _do(acc, {'form': 'melt', 'table': t, 'key': list(K)}, 'melt/recast')
         return
     if fam == 'recast':
         _, n, layout, first = item
         hdr = ('k', 'variable', 'value') if layout == 0 else ('variable', 'value', 'k')
-        opts = [(k, v) for k in _K4 for v in ('p', 'q')]
+        opts = [(k, v) for k in _K8 for v in ('p', 'q')]
         for combo in itertools.product(range(len(opts)), repeat=n):
             if first is not None and (not combo or combo[0] // 2 != first):
                 continue
@@ -700,34 +710,81 @@ def run_item(item, acc):
     hdr = ['id', 'z']
     hdr.insert(fi, 'u')
 
-    def tables(cellopts, nmax):
+    alias_rows = 2 if tier == 'thorough' else 1
+
+    def tables(cellopts, nmax, part):
+        """Every combination of expanded-cell contents; the two OTHER cells of a row are position tags
+        or (tables with <= alias_rows rows: every combination per row of) a value EQUAL to the expanded
+        cell / equal to its first part, so that expanding 'by value' instead of 'by position' shows."""
+        def alias(kind, i, j, v):
+            if kind == 'tag':
+                return tag(i, j)
+            if kind == 'same':
+                return type(v)(v) if isinstance(v, (list, dict)) else v
+            return part(v)          # may be NOTHING: no such part
+        kinds = ('tag', 'same', 'part')
         for n in range(0, nmax + 1):
             for combo in itertools.product(range(len(cellopts)), repeat=n):
-                rows = [tuple(hdr)]
-                for i, o in enumerate(combo):
-                    row = [tag(i, 0), tag(i, 2)]
-                    row.insert(fi, cellopts[o](i))
-                    rows.append(tuple(row))
-                yield rows
+                if n <= alias_rows:
+                    others = itertools.product(itertools.product(kinds, repeat=2), repeat=n)
+                else:
+                    others = [(('tag', 'tag'),) * n]
+                seen = set()
+                for oth in others:
+                    rows = [tuple(hdr)]
+                    ok = True
+                    for i, o in enumerate(combo):
+                        v = cellopts[o](i)
+                        row = [alias(oth[i][0], i, 0, v), alias(oth[i][1], i, 2, v)]
+                        if any(x is NOTHING for x in row):
+                            ok = False
+                            break
+                        row.insert(fi, v)
+                        rows.append(tuple(row))
+                    if not ok:
+                        continue
+                    sig = repr(rows)
+                    if sig in seen:
+                        continue
+                    seen.add(sig)
+                    if any(k != ('tag', 'tag') for k in oth):
+                        acc.counters['tables:other-cell-equals-expanded-value-or-part'] += 1
+                    yield rows
+
+    def first_item(v):
+        return v[0] if len(v) else NOTHING
+
+    def first_dict_value(v):
+        for x in v.values():
+            return x
+        return NOTHING
+
+    def first_group(v):
+        import re
+        m = re.search('([A-Z,a-z]+)([0-9]+)', v)
+        return m.group(1) if m else NOTHING
+
+    def first_piece(v):
+        return v.split(',')[0]
     if fam == 'unpack':
         opts = []
         for L in range(4):
             opts.append(lambda i, L=L: ['r%du%d' % (i, k) for k in range(L)])
             opts.append(lambda i, L=L: tuple('r%du%d' % (i, k) for k in range(L)))
-        for t in tables(opts, 2):
+        for t in tables(opts, 2, first_item):
             _do(acc, {'form': 'unpack', 'table': t, 'fi': fi}, 'unpack')
     elif fam == 'unpackdict':
         opts = [lambda i: {}, lambda i: {'p': 'r%dp' % i}, lambda i: {'q': 'r%dq' % i},
                 lambda i: {'q': 'r%dq' % i, 'p': None}]
-        for t in tables(opts, 3 if tier == 'thorough' else 2):
+        for t in tables(opts, 3 if tier == 'thorough' else 2, first_dict_value):
             _do(acc, {'form': 'unpackdict', 'table': t, 'fi': fi}, 'unpackdict')
     elif fam == 'capture':
         opts = [lambda i: 'A1', lambda i: 'Bc22', lambda i: 'x9y', lambda i: '--', lambda i: '-A1']
-        for t in tables(opts, 3 if tier == 'thorough' else 2):
+        for t in tables(opts, 3 if tier == 'thorough' else 2, first_group):
             _do(acc, {'form': 'capture', 'table': t, 'fi': fi}, 'capture')
     elif fam == 'split':
         opts = [lambda i: 'p,q', lambda i: 'p', lambda i: 'p,q,r', lambda i: '', lambda i: ',p']
-        for t in tables(opts, 3 if tier == 'thorough' else 2):
+        for t in tables(opts, 3 if tier == 'thorough' else 2, first_piece):
             _do(acc, {'form': 'split', 'table': t, 'fi': fi}, 'split/splitdown')
     elif fam == 'dicts':
         w = item[1]
